@@ -357,7 +357,7 @@ func TestVerifC19(t *testing.T) {
 				c := &c19Case{cf, ss, sc}
 				ctx.Nontrivial(vr.Hash(fmt.Sprint(*c)))
 				var o c19Obs
-				st := vs.Explore(vs.Opts{Bound: bound, Shards: 1, Expired: ctx.Expired, MaxExecs: 2000}, c19Body(c, &o), func(s *vs.Sched, owned bool) bool {
+				st := vs.Explore(vs.Opts{Bound: bound, Shards: 1, Expired: ctx.Expired, MaxExecs: int64(ctx.Param("max_execs", 0))}, c19Body(c, &o), func(s *vs.Sched, owned bool) bool {
 					sig, what := c19Verdict(c, &o, s)
 					ctx.R.Evals++
 					if sig != "" {
